@@ -18,7 +18,7 @@ PA pa; babylon::LogStreamBuffer* buf; struct iovec iovs[64];
 extern "C" {
 void vf_init() { buf = new babylon::LogStreamBuffer; buf->set_page_allocator(pa); }
 void vf_thread_0() {
-  size_t n = vf_nondet64(); vf_assume(n == VF_N);
+  size_t n = vf_nondet64(); vf_assume(n <= VF_N);
   buf->begin();
   for (size_t i = 0; i < n; ++i) buf->sputc((char)(i + 1));
   babylon::LogEntry& e = buf->end();
